@@ -127,11 +127,16 @@ var srcVoid = []string{"br", "img", "input", "hr"}
 var srcTexts = []string{"word", "two words", "a &lt; b", "x &amp; y", "&quot;q&quot;", "it&#39;s", "&lt;b&gt;bold&lt;/b&gt;", "a &lt; b &amp; c;", "semi; colon", "caf&eacute;", "1 &gt; 0", "&copy; 2024", "tab\there"}
 var srcAttrVals = []string{"v", "a b", "a &amp; b", "&quot;q&quot;", "say &quot;hi&quot; &amp; bye", "&lt;tag&gt;", "x=1&amp;y=2", "it&#39;s", "", "  padded  ", "a;b", "&amp;amp;"}
 
+// attribute names of a directive-free template: plain ones, and names that merely LOOK like template syntax — a namespace or event
+// prefix with a colon inside (xml:lang, x-on:click), an at-sign, a dot, a v- prefix that is no vuego directive — all of them are static
+var srcAttrNames = []string{"class", "id", "title", "data-x", "alt", "href", "class", "id", "title", "data-x", "alt", "href", "aria-label", "xml:lang", "xlink:href", "x-on:click", "x-bind:hidden", "hx-on:click",
+	"@click", "data-a.b", "v-cloak", "v-on:click", "v-model", "on:x", "_k", "x-data"}
+
 func (g *srcGen) attrs() string {
 	var sb strings.Builder
 	used := map[string]bool{}
 	for k := g.r.Intn(3); k > 0; k-- {
-		n := []string{"class", "id", "title", "data-x", "alt", "href"}[g.r.Intn(6)]
+		n := srcAttrNames[g.r.Intn(len(srcAttrNames))]
 		if used[n] {
 			continue
 		}
